@@ -378,6 +378,11 @@ def run(loader, R, tier):
                     and len(n.get("a", ())) == 2 \
                     and "begin()" in show(n["a"][0]):
                 idx, what = [n["a"][1]], "iterator offset"
+            elif n.get("k") == "call" and n.get("n") in ("next", "advance",
+                                                         "prev") \
+                    and len(n.get("a", ())) == 2 \
+                    and "->m" in show(n["a"][0]):
+                idx, what = [n["a"][1]], "iterator offset (std::%s)" % n["n"]
             if not idx:
                 return
             used = {x["n"] for e in idx for x in walk(e)
@@ -424,6 +429,62 @@ def run(loader, R, tier):
                         f["n"], sorted(used - tested), what))
         sym.visit_guarded(f["body"], cb5)
     R.floor("indexed accesses driven by C integer parameters", nidx, 5)
+
+    # ---------------------------------------------------------------- R42.7
+    # the C container types behave as vectors, sets and maps: each wrapper
+    # applies to its member container the std operation that has the meaning
+    # of the C function (a map insert rebinds an existing key, as
+    # map_basic_basic m[k] = v does in the core)
+    R.rule("R42.7", "C container wrappers apply the std operation of the "
+                    "same meaning to their container")
+    WRAP = {"vectorint_push_back": ("push_back",),
+            "vecbasic_push_back": ("push_back",),
+            "vecbasic_get": ("[] read",), "vecbasic_set": ("[] =",),
+            "vecbasic_erase": ("erase",), "vecbasic_size": ("size",),
+            "setbasic_insert": ("insert",), "setbasic_find": ("find",),
+            "setbasic_erase": ("erase",), "setbasic_size": ("size",),
+            "mapbasicbasic_insert": ("[] =", "insert_or_assign"),
+            "mapbasicbasic_get": ("find",), "mapbasicbasic_size": ("size",)}
+    nw = 0
+    byname = {f["n"]: f for f in ec}
+    for name, wants in sorted(WRAP.items()):
+        f = byname.get(name)
+        if f is None:
+            raise AnalysisBroken("C container function %s not found" % name)
+        have = set()
+        for n in walk(f["body"]):
+            if n.get("k") == "mcall" and "->m" in show(n.get("o") or {}):
+                have.add(n.get("n"))
+            if n.get("k") in ("bin", "op") and n.get("op") == "=" \
+                    and n.get("a"):
+                l = n["a"][0]
+                while l.get("k") in ("cast", "ctor") and len(
+                        l.get("a", ())) == 1:
+                    l = l["a"][0]
+                if l.get("k") in ("bin", "op") and l.get("op") == "[]" \
+                        and "->m" in show(l["a"][0]):
+                    have.add("[] =")
+                for r in walk(n["a"][1]) if len(n["a"]) > 1 else ():
+                    if r.get("k") in ("bin", "op") and r.get("op") == "[]" \
+                            and "->m" in show(r["a"][0]):
+                        have.add("[] read")
+            if n.get("k") == "return":
+                for r in walk(n.get("e") or {}):
+                    if r.get("k") in ("bin", "op") and r.get("op") == "[]" \
+                            and "->m" in show(r["a"][0]):
+                        have.add("[] read")
+        nw += 1
+        R.instance("R42.7", name, sample={"function": name,
+                                          "operations": sorted(have)})
+        if not (set(wants) & have):
+            R.violation(
+                "R42.7", name, prog.loc(f),
+                "%s applies %s to its container, not %s: the C container "
+                "no longer behaves like the C++ one (e.g. std::map::insert "
+                "keeps the old value of an existing key where m[k] = v "
+                "rebinds it)" % (name, sorted(have) or "nothing",
+                                 " / ".join(wants)))
+    R.floor("C container wrappers", nw, 13)
 
     # ---------------------------------------------------------------- R42.6
     # value-preserving hand-over of integers: an integer parameter of a C
